@@ -228,15 +228,15 @@ def run(ck, facts):
 
     # ---------------- R2 mirrors
     fl = tmpl.flat_file("dart/result.dart.jinja", resolve_includes=False)
-    m = re.search(r"final class ⟦name⟧ extends ffi\.Struct \{(.*?)// ignore", fl, re.S)
+    m = re.search(r"final class ⟦\s*[\w.]+\s*⟧ extends ffi\.Struct \{(.*?)// ignore", fl, re.S)
     okr = False
     if m:
         body = tmpl.strip_stmts(m.group(1))
         decl = re.findall(r"(@ffi\.\w+\(\))?\s*external\s+([^;]+?)\s+(\w+);", body)
         okr = [d[2] for d in decl] == ["union", "isOk"] and decl[1][0] == "@ffi.Bool()"
     ck.expect(okr, "R2", "dart/result.dart.jinja", "union; @ffi.Bool isOk", "Dart result record is not {union; @ffi.Bool() isOk}", "tool/templates/dart/result.dart.jinja")
-    um = re.search(r"final class ⟦name⟧Union extends ffi\.Union \{(.*?)\n\}", fl, re.S)
-    oku = bool(um) and re.findall(r"external\s+⟦\s*ty\s*⟧\s+(\w+);", um.group(1)) == ["ok", "err"]
+    um = re.search(r"final class ⟦\s*[\w.]+\s*⟧Union extends ffi\.Union \{(.*?)\n\}", fl, re.S)
+    oku = bool(um) and re.findall(r"external\s+⟦\s*[\w.]+\s*⟧\s+(\w+);", um.group(1)) == ["ok", "err"]
     ck.expect(oku, "R2", "dart/result.dart.jinja/union", "ok; err", "Dart result union arms are not (ok, err)", "tool/templates/dart/result.dart.jinja")
     fl = tmpl.flat_file("dart/slice.dart.jinja", resolve_includes=False)
     m = re.search(r"final class ⟦slice_ty⟧ extends ffi\.Struct \{(.*?)// This is expensive", fl, re.S)
@@ -394,14 +394,27 @@ def run(ck, facts):
 
     # ---------------- R2b helper-record cache key is as fine as the record's ABI shape
     gr = tool.fn("dart::TyGenContext::gen_result")
-    key_calls = []
-    for n in C.walk(C.fn_body(gr)):
-        if n.get("k") == "letst" and n["pat"].get("n") == "name":
-            for x in C.walk(n["init"]):
-                if x.get("k") == "mcall" and x.get("m") == "gen_type_name_ffi":
-                    key_calls.append(C.strip(x["a"][1]))
-    uses_key = any(x.get("k") == "mcall" and x.get("m") in ("contains_key", "insert") and any(y.get("k") == "field" and y.get("n") == "helper_classes" for y in C.walk(x["recv"])) for x in C.walk(C.fn_body(gr)))
-    ok = len(key_calls) >= 2 and all(k.get("k") == "lit" and k.get("v") is False for k in key_calls) and uses_key
+    # the key: what `helper_classes.contains_key(..)` is asked -- followed back through locals and through helper functions
+    import flow as _flow
+    gr_defs = dict(_flow.defs_of(gr))
+    key_calls, key_roots = [], set()
+    lookups = [x for x in C.walk(C.fn_body(gr)) if x.get("k") == "mcall" and x.get("m") == "contains_key" and any(y.get("k") == "field" and y.get("n") == "helper_classes" for y in C.walk(x["recv"]))]
+    todo, seen_l = [a_ for x in lookups for a_ in x.get("a") or []], set()
+    while todo:
+        e_ = todo.pop()
+        for x in C.walk_inl(tool, e_, 2, exclude=[gr["path"]]):
+            if x.get("k") == "mcall" and x.get("m") == "gen_type_name_ffi" and len(x.get("a") or []) >= 2:
+                key_calls.append(C.strip(x["a"][1]))
+            if x.get("k") == "local" and x.get("id") not in seen_l:
+                seen_l.add(x.get("id"))
+                d_ = gr_defs.get(x.get("id"))
+                if d_ and d_[0] == "expr":
+                    todo.append(d_[1])
+                elif d_ and d_[0] == "param":
+                    key_roots.add(x.get("id"))
+    uses_key = bool(lookups) and any(x.get("k") == "mcall" and x.get("m") == "insert" and any(y.get("k") == "field" and y.get("n") == "helper_classes" for y in C.walk(x["recv"])) for x in C.walk(C.fn_body(gr)))
+    # both payload types (the ok and the err parameter) take part in the key
+    ok = len(key_calls) >= 1 and len(key_roots) >= 2 and all(k.get("k") == "lit" and k.get("v") is False for k in key_calls) and uses_key
     ck.expect(ok, "R2", "dart::gen_result/cache-key-is-abi-type", "key built from the ffi (cast=false) type names",
               "the `_Result..` helper class is cached under a name built from the Dart-side type (cast=%s): payloads of different width share one record with the first one's @ffi annotation" % [k.get("v") for k in key_calls], C.loc(gr))
 
